@@ -142,6 +142,8 @@ class Gen:
             out.append((3, None, None, ref.PV(conf['default']), None))
         for k in KINDS:
             a = acc.get(k)
+            if site == 'dir_contents_of' and k == 'result':
+                continue  # (undocumented cell; a rejection here would only hide the rest of the case)
             if a is True or (a == 'maybe' and allow_maybe):
                 out.append((2 if a is True else 1, k, None, ref.PV(k), None))
         if site == 'def':
@@ -151,6 +153,8 @@ class Gen:
                 continue
             pv = S.paths[name]
             a = acc.get(pv.kind)
+            if site == 'dir_contents_of' and pv.kind == 'result':
+                continue
             if a is True or (a == 'maybe' and allow_maybe):
                 w = 1 if name in ref.BUILTINS else 3 + 3 * min(pv.depth, 3)
                 if name == self.prefer:
